@@ -544,3 +544,19 @@ func vLaxSerial(c *vCert, n byte) *vCert {
 	r.label = c.label + " (lax-only serial)"
 	return r
 }
+
+// vFlipSig returns a copy of c with the same TBSCertificate and a different signatureValue (last byte flipped): another
+// certificate (other Raw) whose signature no longer verifies.
+func vFlipSig(c *vCert) *vCert {
+	der := append([]byte{}, c.der...)
+	der[len(der)-1] ^= 0x01
+	pc, err := x509.ParseCertificate(der)
+	if x509.IsFatal(err) || pc == nil {
+		der[len(der)-1] ^= 0x03
+		pc, err = x509.ParseCertificate(der)
+		if x509.IsFatal(err) || pc == nil {
+			panic("vFlipSig: " + c.label)
+		}
+	}
+	return &vCert{der: der, c: pc, key: c.key, issuer: c.issuer, label: c.label + " (signature bytes altered)", spec: c.spec}
+}
